@@ -17,7 +17,7 @@ ASSUMPTIONS = ["scheme candidates whose first character is a digit, '+', '-' or 
 
 DELIMS = ":/?#@[]\\"
 TOKENS = [":", "/", "//", "?", "#", "@", "[", "]", "\\", "[::1]", "[a:b]@", "[v1.x]@", "[::1]@", "u[:]p@", "//[a:b]@h:80", "[v1.x]", "[1.2.3.4]", "[fe80::1%25eth0]", "http", "HTTP", "hTTps", "ws", "file", "mailto", "a", "b1", "1", "+", "-", ".",
-          "80", ":80", ":0", ":", ":080", ":0080", ":00443", ":0443", ":021", ":000", "http://h:080", "https://u:p@[::1]:00443", " ", "\t", "\n", "\r", "\x00", "\x1f", "\x0b", "%41", "%2f", "\xe9", "x-y.z", "://", "h.example", "H.Example", "u:p@", "u@", ":p@", "@@", "::", "?#", "#?", "..", "."]
+          "80", ":80", ":0", ":", ":080", ":0080", ":00443", ":0443", ":021", ":000", "http://h:080", "https://u:p@[::1]:00443", " ", "\t", "\n", "\r", "\x00", "\x1f", "\x0b", "\xa0", "\u2003", "\u3000", "\x85", "\u2028", "\xe9:x", "\u0444ile:", "[v1.x]", "//[v1.x]/p", "[vF.a]:80", "%41", "%2f", "\xe9", "x-y.z", "://", "h.example", "H.Example", "u:p@", "u@", ":p@", "@@", "::", "?#", "#?", "..", "."]
 
 
 def dense():
@@ -57,7 +57,7 @@ def recompose_variants(scheme, auth, path, query, fragment, explicit_port):
     return out
 
 
-def check_parse(ctx, backend, mode, s):
+def check_parse(ctx, backend, mode, s, order=0):
     Y = ctx.yarl(backend)
     R = ref.split(s)
     cleaned = ref.clean(s)
@@ -69,6 +69,10 @@ def check_parse(ctx, backend, mode, s):
     auth = R["authority"]
     try:
         u = Y.URL(s, encoded=(mode == "enc"))
+        if order:
+            # a cache-free clone: the first accessor that is read decides what gets memoised
+            import pickle
+            u = pickle.loads(pickle.dumps(u))
     except ValueError:
         ctx.case(nontrivial, label=mode + "/rejected", key=(mode, s))
         if mode == "enc" and (auth is None or (auth.isascii() and "[" not in auth and "]" not in auth)):
@@ -120,7 +124,14 @@ def check_parse(ctx, backend, mode, s):
             ctx.label("skipped:bracket-junk")
         else:
             try:
-                got = [u.raw_user, u.raw_password, u.raw_host, u.explicit_port]
+                if order == 1:
+                    h_ = u.raw_host
+                    got = [u.raw_user, u.raw_password, h_, u.explicit_port]
+                elif order == 2:
+                    p_, h_ = u.explicit_port, u.host_subcomponent
+                    got = [u.raw_user, u.raw_password, u.raw_host, p_]
+                else:
+                    got = [u.raw_user, u.raw_password, u.raw_host, u.explicit_port]
             except ValueError:
                 got = None  # invalid port text: rejected lazily (C17/C19 decide that)
             if got is not None:
@@ -185,7 +196,7 @@ CHECKS = {"parse": check_parse}
 
 
 def generated(ctx, backend, mode, n):
-    ctx.given("parse", {"s": dense()}, max_examples=n, fixed={"backend": backend, "mode": mode})
+    ctx.given("parse", {"s": dense(), "order": st.integers(0, 2)}, max_examples=n, fixed={"backend": backend, "mode": mode})
     ctx.given("parse", {"s": gen.url_string(gen.text(max_tokens=4))}, max_examples=n // 3, fixed={"backend": backend, "mode": mode}, tag="grammar")
 
 
